@@ -50,9 +50,11 @@ PartialReads == {"fetchShort", "fetchPartial", "fetchClose2"}
 \* C06: a successful call returns the answer to its own (payload-tagged) request
 C06_OwnResponse == \A o \in DOMAIN res : res[o].result = "response" => res[o].own
 
-\* scenarios of kind "pool" inject no fault: two Conns that only share the process (recycled buffers) each read their whole
+\* scenarios of kind "pool" inject no fault into their "poolread" steps (a first step of kind "poolpoison" is a fetch that
+\* fails by design -- truncated, cut or stalled inside its first header -- and is closed once, as a program does): two Conns that only share the process (recycled buffers) each read their whole
 \* response, exactly as a Conn alone does -- an error there is one Conn's data disturbed by the other's
-C06_SharedBuffersClean == kind = "pool" => \A o \in DOMAIN res : res[o].result = "response" /\ res[o].own
+C06_SharedBuffersClean ==
+  kind = "pool" => \A o \in DOMAIN res : plan[PlanOf(o)].kind = "poolread" => (res[o].result = "response" /\ res[o].own)
 
 \* the mechanism behind it: requests written on one Conn carry pairwise distinct correlation ids
 C06_UniqueIds == ~dupid
